@@ -58,6 +58,10 @@ def corpus(seed, n):
             texts.append((f"<p>See {P} v. {D}, 3 {r} 3 (1990). In <em>{nm}</em>, the court held otherwise; <i>{nm}</i> at 9.</p>",
                           ["html", "all_whitespace"]))
             texts.append((f"See {P} v. {D}, 3 {r} 3 (1990). In {nm} at 5, the court held otherwise.", None))
+    for t in ("Foo, 515 U.S. at ___ (Thomas, J., dissenting).", "Foo v. Bar, 1 U.S. ___ (2020) (per curiam). Id. at ___ (same).",
+              "Bar, supra, at ___ (emphasis added); 7 Minn. L. Rev. ___ (1995) (discussing x).", "Roe, 410 U.S., at _ (noting y)"):
+        # placeholder pages: the page group is rewritten after the match - with a parenthetical behind it
+        texts.append((t, None))
     k = 0
     while k < n:
         e = EXTRACTORS[rng.randrange(len(EXTRACTORS))]
@@ -385,7 +389,7 @@ def finalize(agg, results):
         vals = {s: per_seed[s].get(key, {}).get("h") for s in seeds}
         ncmp += len(seeds) - 1
         tid = int(key.split("|")[0])
-        if tid < len(TIES) + 24 and key.endswith("|0"):
+        if tid < len(TIES) + 28 and key.endswith("|0"):
             ties += 1
         if ref[key]["n"] > 0:
             agg["distinct"].add(core.h64(["c15", key]))
